@@ -16,7 +16,9 @@ RULE = ("case = (family, configuration, base tensor, drawn tf_seed, learning-pha
         "part: Hypothesis. Non-trivial = the tensor has an element whose "
         "fractional position p between its two codes is in (0.05,0.95) AND (for "
         "the grid families) an element that is exactly a code; distinct by hash of "
-        "the whole case.")
+        "the whole case. Families: fixed (grid formats with constant scale), po2, "
+        "sign (binary/ternary/stochastic_*), auto (fixed point with "
+        "data-dependent scale).")
 ASSUMPTIONS = [
     "checks run under TF_USE_LEGACY_KERAS=1 (tf_keras), float32, eager; "
     "tf.random.set_seed(tf_seed + step) immediately before every quantizer call",
@@ -26,8 +28,9 @@ ASSUMPTIONS = [
     "(2.56e-12): w*L/(3n) + sqrt((w*L/(3n))^2 + 2*v*L/n), L=ln(2/2.56e-12)=27.4, "
     "v=(hi-c)(c-lo) the largest variance a draw confined to [lo,hi] with mean c "
     "can have, w=hi-lo; equals 7.4 standard errors for large n and stays sound "
-    "for p near 0/1; a failing element is re-drawn with 8n draws and seed+7919 "
-    "and only reported if it fails again",
+    "for p near 0/1; a failing statistic is re-drawn with 8n draws and seed+7919 "
+    "and only reported if it fails again, except when it is beyond 3x the "
+    "tolerance (>22 sigma), which is believed at once",
     "tanh/sigmoid: position of the clipped input known to 2^-21/u (affine "
     "sigmoids) or 2^-19/u (exp based) code units because the library evaluates "
     "the surrogate in float32; that much is added to the adjacency window and "
@@ -49,16 +52,30 @@ ASSUMPTIONS = [
     "clipped input is clip(x,-s,s); monotonicity of P(y>0), P(y<0) between any "
     "two elements of a channel is tested with the same Bernstein level on the "
     "difference of counts",
+    "two-code quantizers (binary, stochastic_binary): an input within 2^-7 of "
+    "the channel maximum from the midpoint 0 must produce each code at least "
+    "once in n draws (weak consequence of adjacency + unbiasedness that the "
+    "by-design bias of these classes does not break; measured P(minority) >= "
+    "0.14 on the unchanged tree, miss probability < 1e-100)",
+    "alpha='auto'/'auto_po2' fixed point (quantized_bits, quantized_linear; "
+    "symmetric signed formats): no reference scale; the channel unit is the "
+    "smallest spread of an element's draws and must not imply more codes than "
+    "bits allow; elements with |x| <= largest output are unclipped and must "
+    "have mean x (Bernstein bound + 1e-5 relative for the float32 scale); a "
+    "channel in which every element is constant over n draws is reported as "
+    "deterministic when an input is further than u_ub*L/n from its output, "
+    "u_ub = smallest non-zero |output| >= unit",
     "outputs within 2 float32 ulp of an admissible code are bucketed as "
     "ste_ulp_noise (x + (xq - x) rounding), further away as a wrong value",
 ]
-BUDGET_S = {"quick": 40, "thorough": 780}
+BUDGET_S = {"quick": 32, "thorough": 780}
 REQUIRED_LABELS = {
-    t: ["fam:fixed", "fam:po2", "fam:sign", "train", "infer", "interior",
+    t: ["fam:fixed", "fam:po2", "fam:sign", "fam:auto", "train", "infer", "interior",
         "exact_code", "clipped", "walk", "hyp", "quantized_bits",
         "quantized_linear", "quantized_relu", "quantized_tanh",
         "quantized_sigmoid", "quantized_po2", "quantized_relu_po2", "binary",
-        "ternary", "stochastic_binary", "stochastic_ternary", "phase_switch"]
+        "ternary", "stochastic_binary", "stochastic_ternary", "phase_switch",
+        "tiny_elem"]
     for t in ("quick", "thorough")}
 
 NDRAWS = {"quick": 2048, "thorough": 16384}
@@ -93,12 +110,13 @@ def _tile(base, n):
 
 
 def _builder(fam):
-  return {"fixed": S.build_fixed, "po2": S.build_po2, "sign": S.build_sign}[fam]
+  return {"fixed": S.build_fixed, "po2": S.build_po2, "sign": S.build_sign,
+          "auto": S.build_auto}[fam]
 
 
 def _variant(fam, cfg):
   return {"fixed": S.fixed_variant, "po2": S.po2_variant,
-          "sign": S.sign_variant}[fam](cfg)
+          "sign": S.sign_variant, "auto": S.sign_variant}[fam](cfg)
 
 
 def _ulps(y, target):
@@ -157,12 +175,12 @@ def _grid_train(fam, cfg, xs, d, ref, redraw):
     j = int(j)
     dj = d[bad[:, j], j]
     cnt = int(dj.size)
-    if exact[j] and not clipped[j]:
-      # an input that is a code must come back unchanged in every draw
-      if fam == "po2" and cnt <= 3 and np.all(np.abs(dj) == 2.0 * abs(c[j])):
-        kind = "next_power_on_uniform_tie"
-      else:
-        kind = "changed"
+    tie = bool(fam == "po2" and exact[j] and cnt <= 3 and
+               np.all(np.abs(dj) == 2.0 * abs(c[j])))
+    if (exact[j] and not clipped[j]) or tie:
+      # an input that is a code (or is clipped onto the code max_value) must
+      # come back unchanged in every draw
+      kind = "next_power_on_uniform_tie" if tie else "changed"
       fails.append(("code_unchanged", {"clause": "code_unchanged", "kind": kind},
                     "x=%r is the code %r*unit but %d of %d draws returned %r" %
                     (x[j], c[j], cnt, n, np.unique(dj)[:4]), j))
@@ -315,6 +333,21 @@ def _sign_train(cfg, base, y, redraw):
                           (xc[mi], int(ch_bad.sum()), n, np.unique(col[ch_bad, mi])[:3]),
                           elem(mi, ch)))
             break
+    # weak consequence of "two adjacent codes, expectation = input" for the
+    # two-code quantizers: an input within 2^-7 of the channel maximum from the
+    # midpoint 0 must produce each of the two codes at least once in n draws
+    # (any sampler with P(minority) >= 0.02 misses with probability < 1e-17)
+    if not ternary:
+      mx = float(np.max(np.abs(xc)))
+      tiny = (xc != 0) & (np.abs(xc) <= 2.0 ** -7 * mx)
+      if tiny.any():
+        stats["tiny_elem"] = True
+      for mi in np.nonzero(tiny)[0]:
+        if np.unique(code[:, mi]).size < 2:
+          fails.append(("midpoint_randomised", {"clause": "midpoint_randomised"},
+                        "x=%r (channel max %r): all %d draws returned %r" %
+                        (xc[mi], mx, n, col[0, mi]), elem(int(mi), ch)))
+          break
     # statistics (re-drawn with 8n before a failure is believed)
     if ternary:
       lo_a = np.where(cpos >= 0, 0.0, -1.0)
@@ -390,6 +423,119 @@ def _sign_train(cfg, base, y, redraw):
 
 
 # ---------------------------------------------------------------------------
+# training oracle, fixed point with data-dependent scale (alpha='auto*')
+
+
+def _auto_train(cfg, base, y, redraw):
+  """No reference for the scale is used: the per-channel grid unit is read off
+  the outputs (smallest gap between distinct outputs of the channel) and
+  cross-checked against the number of codes `bits` allows."""
+  fails = []
+  n = y.shape[0]
+  C = base.shape[-1]
+  xb = base.reshape(-1, C).astype(np.float64)
+  M = xb.shape[0]
+  yy = y.reshape(n, M, C).astype(np.float64)
+  kmax = 2 ** (cfg["kw"]["bits"] - 1) - 1          # symmetric signed format
+  stats = {"interior": False, "exact_code": False, "clipped": False}
+
+  def elem(m_, ch):
+    return int(m_ * C + ch)
+
+  for ch in range(C):
+    col, xc = yy[:, :, ch], xb[:, ch]
+    if not np.isfinite(col).all():
+      fails.append(("train_nonfinite", {"clause": "nonfinite", "cause": "other"},
+                    "channel %r" % list(xc[:6]), elem(0, ch)))
+      continue
+    ymax = float(np.max(np.abs(col)))
+    if ymax == 0:
+      continue
+    free = np.abs(xc) <= ymax                          # not clipped by the scale
+    tolx = 1e-5 * np.maximum(np.abs(xc), ymax / max(kmax, 1))
+    spread = col.max(axis=0) - col.min(axis=0)
+    two = spread > ymax * 2.0 ** -12
+    if not two.any():
+      # every element of the channel came back with one value in all n draws.
+      # All outputs are multiples of the unit u, so u <= u_ub = smallest non-zero
+      # |output|; a correct sampler repeats one code n times for an input at
+      # distance d from it with probability (1-d/u)^n <= LEVEL once
+      # d >= u_ub*LOGL/n.
+      nzv = np.abs(col[0])[np.abs(col[0]) > 0]
+      u_ub = float(nzv.min())
+      dist = np.abs(col[0] - xc)
+      bad = free & (dist > u_ub * S.LOGL / n + tolx)
+      if bad.any():
+        mi = int(np.nonzero(bad)[0][np.argmax(dist[bad])])
+        stats["interior"] = True
+        fails.append(("unbiased", {"clause": "unbiased", "kind": "deterministic"},
+                      "x=%r: all %d draws returned %r (no element of the channel is "
+                      "randomised; unit <= %r)" % (xc[mi], n, col[0, mi], u_ub), elem(mi, ch)))
+      continue
+    u = float(np.min(spread[two]))
+    k = col / u
+    if np.max(np.abs(k - np.round(k))) > 1e-3 * max(1.0, kmax / 16.0):
+      mi = int(np.argmax(np.max(np.abs(k - np.round(k)), axis=0)))
+      fails.append(("adjacent", {"clause": "adjacent", "cause": "off_grid"},
+                    "x=%r unit %r outputs %r" % (xc[mi], u, np.unique(col[:, mi])[:4]), elem(mi, ch)))
+      continue
+    if round(ymax / u) > kmax:
+      fails.append(("adjacent", {"clause": "adjacent", "cause": "more_codes_than_bits"},
+                    "largest output %r / smallest gap %r = %d > top code %d" %
+                    (ymax, u, round(ymax / u), kmax), elem(0, ch)))
+      continue
+    # zero is always a code
+    for mi in np.nonzero(xc == 0)[0]:
+      stats["exact_code"] = True
+      if np.any(col[:, mi] != 0):
+        fails.append(("code_unchanged", {"clause": "code_unchanged", "kind": "changed"},
+                      "x=0 returned %r" % np.unique(col[:, mi])[:3], elem(int(mi), ch)))
+        break
+    if (~free).any():
+      stats["clipped"] = True
+    far = (np.abs(col - xc[None]) >= u + tolx[None]) & free[None]
+    if far.any():
+      mi = int(np.nonzero(far.any(axis=0))[0][0])
+      fails.append(("adjacent", {"clause": "adjacent", "cause": "code_not_adjacent"},
+                    "x=%r unit %r: %d of %d draws a full step or more away: %r" %
+                    (xc[mi], u, int(far[:, mi].sum()), n, np.unique(col[far[:, mi], mi])[:4]),
+                    elem(mi, ch)))
+      continue
+    pos = xc / u
+    fr = pos - np.floor(pos)
+    inter = free & (fr > 0.05) & (fr < 0.95)
+    if inter.any():
+      stats["interior"] = True
+
+    def mean_fails(col_, n_):
+      mean = col_.mean(axis=0, dtype=np.float64)
+      tol = S.bern_tol(u * u * fr * (1 - fr), n_, u) + tolx
+      bad = (np.abs(mean - xc) > tol) & free
+      if not bad.any():
+        return None
+      mi = int(np.nonzero(bad)[0][np.argmax((np.abs(mean - xc) / tol)[bad])])
+      det = bool(np.all(col_[:, mi] == col_[0, mi]))
+      return (("unbiased", {"clause": "unbiased", "kind": "deterministic" if det else "biased"},
+               "x=%r (%.3f steps of %r): mean of %d draws %r, tolerance %.3g" %
+               (xc[mi], pos[mi], u, n_, mean[mi], tol[mi]), mi),
+              bool(abs(mean[mi] - xc[mi]) > GROSS * tol[mi]))
+
+    first = mean_fails(col, n)
+    if first is not None:
+      f_, gross = first
+      if not gross:
+        y2 = redraw(8 * n)
+        f_ = None
+        if y2 is not None:
+          col2 = y2.reshape(y2.shape[0], M, C)[:, :, ch].astype(np.float64)
+          second = mean_fails(col2, col2.shape[0])
+          f_ = second[0] if second is not None else None
+      if f_ is not None:
+        fails.append((f_[0], f_[1], f_[2], elem(f_[3], ch)))
+  return fails, stats
+
+
+# ---------------------------------------------------------------------------
 # the oracle: one case through its learning-phase schedule
 
 
@@ -414,7 +560,7 @@ def oracle(case):
 
   def mini(j=None, **kwd):
     c = dict(case)
-    if j is not None and fam != "sign":
+    if j is not None and fam in ("fixed", "po2"):
       c = dict(case, xs=[float(xs[j])], shape=[1])
     c.update(kwd)
     return c
@@ -434,7 +580,7 @@ def oracle(case):
           sig = dict(core.exc_signature(e), phase="train", **basesig)
           fails.append(("call_raises", sig, repr(e)[:300], mini()))
           continue
-        if fam == "sign":
+        if fam in ("sign", "auto"):
           cache = {}
 
           def redraw(nn, sd=sd, cache=cache):
@@ -444,7 +590,7 @@ def oracle(case):
               except Exception:  # pylint: disable=broad-except
                 cache[nn] = None
             return cache[nn]
-          fl, st = _sign_train(cfg, base, y, redraw)
+          fl, st = (_sign_train if fam == "sign" else _auto_train)(cfg, base, y, redraw)
         else:
           ref = _grid_reference(fam, cfg, xs)
           d = y.reshape(n, -1).astype(np.float64) / ref["unit"]
@@ -495,7 +641,8 @@ def oracle(case):
   labels += [k for k, v in stats.items() if v]
   if case.get("zero_channel"):
     labels.append("zero_channel")
-  nontrivial = stats.get("interior", False) and (stats.get("exact_code", False) or fam == "sign")
+  nontrivial = stats.get("interior", False) and (stats.get("exact_code", False) or
+                                                 fam in ("sign", "auto"))
   return fails, labels, nontrivial
 
 
@@ -512,7 +659,7 @@ def _cfg_pools(tier):
   for c in ftrain:
     by.setdefault(c["cls"], []).append(c)
   return {"fixed": by, "fixed_infer_only": finfer, "po2": S.po2_cfgs(tier),
-          "sign": S.sign_cfgs(tier), "excluded": excl}
+          "sign": S.sign_cfgs(tier), "auto": S.auto_cfgs(tier), "excluded": excl}
 
 
 def _walk_cases(ctx, pools):
@@ -546,6 +693,11 @@ def _walk_cases(ctx, pools):
     out.append({"fam": "sign", "cfg": cfg, "xs": t["xs"], "shape": t["shape"],
                 "phases": SCHEDULES[k % len(SCHEDULES)] if S.sign_trainable(cfg) else [0],
                 "train": S.sign_trainable(cfg), "flat_infer": bool(k % 3 == 1)})
+  for k, cfg in enumerate(pools["auto"]):
+    if k % (2 if ctx.quick else 1) == 0:
+      t = S.auto_walk(cfg)
+      out.append({"fam": "auto", "cfg": cfg, "xs": t["xs"], "shape": t["shape"],
+                  "phases": SCHEDULES[k % len(SCHEDULES)]})
   for j, c in enumerate(out):
     c["n"] = n
     c["tf_seed"] = int((core.jhash([c["cfg"], j]) + ctx.seed * 7919) % (2 ** 31 - 10000))
@@ -559,7 +711,8 @@ def _strategy(ctx, pools):
 
   @st.composite
   def case_st(draw):
-    fam = draw(st.sampled_from(["fixed", "fixed", "fixed", "po2", "sign", "sign"]))
+    fam = draw(st.sampled_from(["fixed", "fixed", "fixed", "fixed", "po2", "po2", "sign",
+                                "sign", "sign", "auto"]))
     case = {"fam": fam, "n": n,
             "tf_seed": draw(st.integers(0, 2 ** 31 - 10000)),
             "phases": draw(st.sampled_from(SCHEDULES))}
@@ -572,6 +725,10 @@ def _strategy(ctx, pools):
       cfg = draw(st.sampled_from(pools["po2"]))
       case["cfg"] = cfg
       case["xs"] = draw(S.po2_elems_strategy(cfg))
+    elif fam == "auto":
+      cfg = draw(st.sampled_from(pools["auto"]))
+      t = draw(S.auto_tensor_strategy(cfg))
+      case.update(cfg=cfg, xs=t["xs"], shape=t["shape"])
     else:
       cfg = draw(st.sampled_from(pools["sign"]))
       t = draw(S.sign_tensor_strategy(cfg))
